@@ -57,12 +57,26 @@ def _same_expr(node, src):
 
 
 def _method(tree, cls, name):
-    for n in tree.body:
-        if isinstance(n, ast.ClassDef) and n.name == cls:
-            for f in n.body:
-                if isinstance(f, ast.FunctionDef) and f.name == name:
-                    return f
-    raise ValueError('%s.%s not found' % (cls, name))
+    """THE definition of cls.name: python uses the last of several definitions, a decorator replaces the function, a
+    class-level assignment to the name rebinds it - all of these are refused rather than read past"""
+    classes = [n for n in tree.body if isinstance(n, ast.ClassDef) and n.name == cls]
+    if len(classes) != 1:
+        raise ValueError('class %s: expected exactly one definition, found %d' % (cls, len(classes)))
+    fs = [f for f in classes[0].body if isinstance(f, (ast.FunctionDef, ast.AsyncFunctionDef)) and f.name == name]
+    rebinds = [f for f in classes[0].body if isinstance(f, (ast.Assign, ast.AnnAssign, ast.AugAssign))
+               and any(getattr(t, 'id', None) == name for t in (getattr(f, 'targets', None) or [f.target]))]
+    if len(fs) != 1 or rebinds:
+        raise ValueError('%s.%s: expected exactly one definition and no other binding, found %d definitions and %d assignments'
+                         % (cls, name, len(fs), len(rebinds)))
+    f = fs[0]
+    if f.decorator_list or not isinstance(f, ast.FunctionDef):
+        raise ValueError('%s.%s: decorated or async definition' % (cls, name))
+    if f.args.vararg or f.args.kwarg or f.args.kwonlyargs or f.args.posonlyargs:
+        raise ValueError('%s.%s: unexpected parameter kinds' % (cls, name))
+    for dflt in f.args.defaults:
+        if not (isinstance(dflt, ast.Constant) and dflt.value in ('', None)):
+            raise ValueError('%s.%s: unexpected default argument %s' % (cls, name, ast.unparse(dflt)))
+    return f
 
 
 def _params(f):
@@ -71,22 +85,24 @@ def _params(f):
 
 # ---- how two names are compared: (left operand, right operand, operator) -> MatchForm
 
-def _match_form(test, left_var, right_var, negated, where):
-    """`<left>[.upper()] (!=|==) <right>[.upper()|uname]`: which sides are upper-cased"""
+def _match_form(test, loop_var, given_forms, negated, where):
+    """`<loop variable>[.upper()] (!=|==) <the caller's name in one of given_forms>` (either order): which sides are
+    upper-cased.  ONE operand must be the loop variable and the OTHER the caller's name: a comparison of the loop variable
+    with itself, or of the parameter with itself (the `attr` -> `name` typo), is refused."""
     if not (isinstance(test, ast.Compare) and len(test.ops) == 1 and len(test.comparators) == 1):
         raise ValueError('%s: comparison of unexpected shape: %s' % (where, ast.unparse(test)))
     op = test.ops[0]
     if negated and not isinstance(op, ast.NotEq) or (not negated and not isinstance(op, ast.Eq)):
         raise ValueError('%s: comparison operator of unexpected kind: %s' % (where, ast.unparse(test)))
-    sides = []
-    for node in (test.left, test.comparators[0]):
-        src = ast.unparse(node)
-        if src in (left_var + '.upper()', right_var + '.upper()', 'uname', 'attribute_name'):
-            sides.append('upper')
-        elif src in (left_var, right_var):
-            sides.append('asGiven')
-        else:
-            raise ValueError('%s: comparison operand outside the expected shape: %s' % (where, src))
+    loop_forms = {loop_var: 'asGiven', loop_var + '.upper()': 'upper'}
+    a, b = ast.unparse(test.left), ast.unparse(test.comparators[0])
+    if a in loop_forms and b in given_forms:
+        sides = [loop_forms[a], given_forms[b]]
+    elif b in loop_forms and a in given_forms:
+        sides = [loop_forms[b], given_forms[a]]
+    else:
+        raise ValueError('%s: the comparison must have the loop variable %r on one side and the caller\'s name (%s) on the '
+                         'other: %s' % (where, loop_var, ' / '.join(sorted(given_forms)), ast.unparse(test)))
     if sides == ['upper', 'upper']:
         return '.upperBoth'
     if sides == ['asGiven', 'asGiven']:
@@ -106,7 +122,8 @@ def _attr_loop(f, where):
     skip = loop.body[0]
     if not (isinstance(skip, ast.If) and not skip.orelse and _is(skip.body, 'continue')):
         raise ValueError('%s: expected `if <no match>: continue`' % where)
-    match = _match_form(skip.test, 'attr', 'name', True, where)
+    # `uname = name.upper()` was checked above, so `uname` is the upper-cased parameter
+    match = _match_form(skip.test, 'attr', {'uname': 'upper', 'name.upper()': 'upper', 'name': 'asGiven'}, True, where)
     return match, loop.body[1], body[2]
 
 
@@ -131,7 +148,15 @@ def _getattr(tree):
     tested = [tgt for var, tgt in TARGETS.items() if _same_expr(st.test, '%s in self.__dict__' % var)]
     if not tested:
         raise ValueError('Class.__getattr__: test outside the expected shape: %s' % ast.unparse(st.test))
-    return match, tested[0], act(st.body), act(st.orelse), act([after])
+    # after the loop only the caller's name is in scope as a MATCH (the loop variable holds the last declared attribute, or is
+    # unbound): a fall-through statement that uses it is refused
+    if _is([after], 'return object.__getattribute__(self, name)'):
+        fall = '.objectGetGiven'
+    elif _is([after], 'return self.__dict__[name]'):
+        fall = '.dictValueGiven'
+    else:
+        raise ValueError('Class.__getattr__: fall-through statement outside the expected shape: %s' % ast.unparse(after))
+    return match, tested[0], act(st.body), act(st.orelse), fall
 
 
 def _setattr(tree):
@@ -155,7 +180,13 @@ def _setattr(tree):
     # the matched branch must leave the loop (return) — otherwise the fall-through statement would also run
     if not (_is(st.body[-1:], 'return') and isinstance(st.orelse[-1], ast.Return)):
         raise ValueError('Class.__setattr__: a matched attribute falls through to the statement after the loop')
-    return match, tested[0], act(st.body), act(st.orelse), act([after])
+    if _is([after], 'self.__dict__[name] = value'):
+        fall = '.dictStoreGiven'
+    elif _is([after], 'return object.__setattr__(self, name, value)') or _is([after], 'object.__setattr__(self, name, value)'):
+        fall = '.objectSetGiven'
+    else:
+        raise ValueError('Class.__setattr__: fall-through statement outside the expected shape: %s' % ast.unparse(after))
+    return match, tested[0], act(st.body), act(st.orelse), fall
 
 
 def _delattr(tree):
@@ -189,7 +220,9 @@ def _attribute_type(tree):
             and not loop.orelse and len(loop.body) == 1 and isinstance(loop.body[0], ast.If) and not loop.body[0].orelse
             and _is(loop.body[0].body, 'return ty')):
         raise ValueError('MetaClass.attribute_type: loop of unexpected shape')
-    return _match_form(loop.body[0].test, 'name', 'attribute_name', False, 'MetaClass.attribute_type')
+    # `attribute_name = attribute_name.upper()` was checked above: the parameter is upper-cased from there on
+    return _match_form(loop.body[0].test, 'name', {'attribute_name': 'upper', 'attribute_name.upper()': 'upper'}, False,
+                       'MetaClass.attribute_type')
 
 
 KEYS = {'ukind': '.upper', 'kind.upper()': '.upper', 'kind': '.asGiven'}
@@ -200,6 +233,36 @@ def _key(node, where):
     if src not in KEYS:
         raise ValueError('%s: class-table key outside the expected shape: %s' % (where, src))
     return KEYS[src]
+
+
+def _reserved(tree):
+    """`def _is_reserved(name): return len(name) > N and name.startswith(P) and name.endswith(S)` -> (N, P, S)"""
+    fs = [n for n in tree.body if isinstance(n, ast.FunctionDef) and n.name == '_is_reserved']
+    if len(fs) != 1:
+        raise ValueError('_is_reserved: expected exactly one module-level definition, found %d' % len(fs))
+    f = fs[0]
+    body = _strip_doc(f.body)
+    if _params(f) != ['name'] or f.decorator_list or len(body) != 1 or not isinstance(body[0], ast.Return):
+        raise ValueError('_is_reserved: unexpected shape')
+    e = body[0].value
+    ok = isinstance(e, ast.BoolOp) and isinstance(e.op, ast.And) and len(e.values) == 3
+    if ok:
+        c, p, q = e.values
+        ok = (isinstance(c, ast.Compare) and len(c.ops) == 1 and isinstance(c.ops[0], ast.Gt) and _same_expr(c.left, 'len(name)')
+              and isinstance(c.comparators[0], ast.Constant) and type(c.comparators[0].value) is int)
+        for call, meth in ((p, 'startswith'), (q, 'endswith')):
+            ok = ok and (isinstance(call, ast.Call) and _same_expr(call.func, 'name.' + meth) and len(call.args) == 1
+                         and not call.keywords and isinstance(call.args[0], ast.Constant) and type(call.args[0].value) is str)
+    if not ok:
+        raise ValueError('_is_reserved: test of unexpected shape: %s' % ast.unparse(e))
+    return c.comparators[0].value, p.args[0].value, q.args[0].value
+
+
+def _chars(text):
+    for ch in text:
+        if not (ch.isascii() and (ch.isalnum() or ch == '_')):
+            raise ValueError('character %r cannot be rendered as a Lean character literal here' % ch)
+    return '[' + ', '.join("'%s'" % ch for ch in text) + ']'
 
 
 def _class_table(tree):
@@ -235,6 +298,7 @@ def _class_table(tree):
             and _same_expr(mk.value.args[1], 'self')):
         raise ValueError('MetaModel.define_class: metaclass creation of unexpected shape: %s' % ast.unparse(mk))
     stored_kind = _key(mk.value.args[0], 'define_class')
+    reserved = 'none'
     # the attribute loop, with or without the rejection of names that coincide apart from letter case
     if len(b) == 6:
         _same(b[3:4], 'for name, ty in attributes:\n    metaclass.append_attribute(name, ty)', 'MetaModel.define_class')
@@ -243,10 +307,20 @@ def _class_table(tree):
         _same(b[3:4], 'unames = set()', 'MetaModel.define_class')
         lp = b[4]
         if not (isinstance(lp, ast.For) and _same_expr(lp.target, '(name, ty)') and _same_expr(lp.iter, 'attributes')
-                and not lp.orelse and len(lp.body) == 3 and isinstance(lp.body[0], ast.If) and not lp.body[0].orelse
-                and len(lp.body[0].body) == 1 and isinstance(lp.body[0].body[0], ast.Raise)
-                and isinstance(lp.body[0].body[0].exc, ast.Call)
-                and ast.unparse(lp.body[0].body[0].exc.func) == 'MetaModelException'):
+                and not lp.orelse and len(lp.body) in (3, 4)):
+            raise ValueError('MetaModel.define_class: attribute loop of unexpected shape: %s' % ast.unparse(lp))
+
+        def raising_if(st):
+            return (isinstance(st, ast.If) and not st.orelse and len(st.body) == 1 and isinstance(st.body[0], ast.Raise)
+                    and isinstance(st.body[0].exc, ast.Call) and ast.unparse(st.body[0].exc.func) == 'MetaModelException')
+        if len(lp.body) == 4:
+            # the loop first refuses names python reserves for itself
+            if not (raising_if(lp.body[0]) and _same_expr(lp.body[0].test, '_is_reserved(name)')):
+                raise ValueError('MetaModel.define_class: reserved-name test of unexpected shape: %s' % ast.unparse(lp.body[0]))
+            n, pre, suf = _reserved(tree)
+            reserved = '(some { minLen := %d, pre := %s, suf := %s })' % (n, _chars(pre), _chars(suf))
+            lp.body = lp.body[1:]
+        if not raising_if(lp.body[0]):
             raise ValueError('MetaModel.define_class: attribute loop of unexpected shape: %s' % ast.unparse(lp))
         if _same_expr(lp.body[0].test, 'name.upper() in unames') and _is(lp.body[1:2], 'unames.add(name.upper())'):
             collision = '(some .upperBoth)'
@@ -262,12 +336,12 @@ def _class_table(tree):
         raise ValueError('MetaModel.define_class: class-table store of unexpected shape: %s' % ast.unparse(st))
     def_store = _key(st.targets[0].slice, 'define_class')
     _same(b[5:], 'return metaclass', 'MetaModel.define_class')
-    return find_test, find_read, def_test, stored_kind, def_store, collision
+    return find_test, find_read, def_test, stored_kind, def_store, collision, reserved
 
 
 HEADER = '''/-
   GENERATED by translator/gen_attrshape.py from xtuml/meta.py (Class.__getattr__ / __setattr__ / __delattr__,
-  MetaClass.attribute_type, MetaModel.find_metaclass / find_class / define_class) — do not edit.
+  MetaClass.attribute_type, MetaModel.find_metaclass / find_class / define_class, _is_reserved) — do not edit.
   Props/C10.lean proves that PyxModel/Attr.lean equals the generic interpretation of this IR.
 -/
 namespace Pyx.Gen.AttrShape
@@ -294,6 +368,17 @@ inductive SetAct where
   | objectSet (t : Target)          -- object.__setattr__(self, t, value): a property on the class refuses
   deriving DecidableEq, Repr
 
+/-- the statement after the loop (no declared attribute matched): only the caller's name can be used there -/
+inductive GetFall where
+  | dictValueGiven                  -- return self.__dict__[name]            (KeyError when the key is missing)
+  | objectGetGiven                  -- return object.__getattribute__(self, name)
+  deriving DecidableEq, Repr
+
+inductive SetFall where
+  | dictStoreGiven                  -- self.__dict__[name] = value
+  | objectSetGiven                  -- object.__setattr__(self, name, value)
+  deriving DecidableEq, Repr
+
 /-- `for attr, _ in attributes: if <no match>: continue; if <tested> in self.__dict__: <inDict> else: <notInDict>`;
     after the loop: <noMatch> -/
 structure GetShape where
@@ -301,7 +386,7 @@ structure GetShape where
   tested : Target
   inDict : GetAct
   notInDict : GetAct
-  noMatch : GetAct
+  noMatch : GetFall
   deriving Repr
 
 structure SetShape where
@@ -309,12 +394,19 @@ structure SetShape where
   tested : Target
   inDict : SetAct
   notInDict : SetAct
-  noMatch : SetAct
+  noMatch : SetFall
   deriving Repr
 
 /-- key of the class table `MetaModel.metaclasses` -/
 inductive KeyForm where
   | upper | asGiven
+  deriving DecidableEq, Repr
+
+/-- `_is_reserved(name)`: `len(name) > minLen and name.startswith(pre) and name.endswith(suf)` -/
+structure ReservedForm where
+  minLen : Nat
+  pre : List Char
+  suf : List Char
   deriving DecidableEq, Repr
 
 '''
@@ -326,7 +418,7 @@ def generate(repo_dir):
     s = _setattr(tree)
     dm = _delattr(tree)
     at = _attribute_type(tree)
-    ft, fr, dt, sk, ds, col = _class_table(tree)
+    ft, fr, dt, sk, ds, col, rsv = _class_table(tree)
     out = [HEADER]
     out.append('def getShape : GetShape :=\n  { matchForm := %s, tested := %s, inDict := %s, notInDict := %s, noMatch := %s }\n' % g)
     out.append('def setShape : SetShape :=\n  { matchForm := %s, tested := %s, inDict := %s, notInDict := %s, noMatch := %s }\n' % s)
@@ -343,6 +435,9 @@ def generate(repo_dir):
     out.append('/-- define_class rejects (MetaModelException, nothing is defined) a class with two attribute names that match in')
     out.append('    this way; `none` = no such check -/')
     out.append('def defineAttrCollision : Option MatchForm := %s\n' % col)
+    out.append('/-- define_class rejects (MetaModelException, nothing is defined) a class with an attribute name for which')
+    out.append('    `_is_reserved` holds: longer than minLen, starting with pre, ending with suf; `none` = no such check -/')
+    out.append('def defineReserved : Option ReservedForm := %s\n' % rsv)
     out.append('end Pyx.Gen.AttrShape\n')
     return [('AttrShape.lean', '\n'.join(out))]
 
